@@ -607,6 +607,9 @@ is_dotted_quad(const char *s)
 		int digits = 0;
 		int value = 0;
 
+		/* "010" is eight to ifconfig and inet_addr(), and "09" nothing */
+		if (s[0] == '0' && s[1] >= '0' && s[1] <= '9')
+			return 0;
 		while (*s >= '0' && *s <= '9') {
 			value = value * 10 + (*s - '0');
 			digits++;
